@@ -331,6 +331,59 @@ WEIGHT = {"Grad": 5, "Div": 5, "Curl": 3, "Rot": 1.5, "Laplace": 3, "Hessian": 1
           "Inner": 2, "Outer": 1.5, "Convect": 2}
 
 
+def scaled_nested_arg(rng, d, want):
+    """(non-constant scalar factors) x (result of a nested operator), optionally inside a sum: the shape of argument
+    on which an identity applied too broadly (curl(c*grad f) = 0 for non-constant c, ...) shows"""
+    f, g, h = [{"k": "sf", "name": n} for n in "fgh"]
+    F, G, H = [{"k": "vf", "name": n} for n in "FGH"]
+    x = {"k": "coord", "i": rng.randrange(d)}
+    alpha = {"k": "const", "name": "alpha"}
+
+    def op(nm, *a):
+        return {"k": "op", "name": nm, "a": list(a)}
+    sf = lambda: rng.choice([f, g, h])  # noqa
+    vf = lambda: rng.choice([F, G, H])  # noqa
+    if want == "v":
+        inner = [op("Grad", sf()), op("Grad", {"k": "mul", "a": [f, g]}), op("Convect", vf(), vf()), op("Laplace", vf())]
+        if d == 3:
+            inner += [op("Curl", vf()), op("Cross", F, G), op("Curl", vf()), op("Cross", G, H)]
+        if d == 2:
+            inner += [op("Rot", sf())]
+        plain = vf()
+    else:
+        inner = [op("Div", vf()), op("Dot", F, G), op("Laplace", sf()), op("Inner", F, G)]
+        if d == 2:
+            inner += [op("Curl", vf()), op("Cross", F, G), op("Bracket", f, g)]
+        plain = sf()
+    scal = rng.choice([[g], [x], [num(2), g], [alpha, g], [g, h], [x, g], [num(3), x], [{"k": "pow", "b": g, "e": num(2)}]])
+    term = {"k": "mul", "a": list(scal) + [rng.choice(inner)]}
+    c = rng.random()
+    if c < 0.6:
+        return term
+    if c < 0.85:
+        return {"k": "add", "a": [plain, term]}
+    return {"k": "add", "a": [term, {"k": "mul", "a": [rng.choice([h, x]), rng.choice(inner)]}]}
+
+
+def gen_scaled_nested(rng):
+    d = rng.choice([2, 3])
+    vec_ops = ["Curl", "Div", "Laplace", "Grad", "Dot", "Cross", "Convect", "Outer"]
+    sc_ops = ["Grad", "Laplace", "Hessian"] + (["Rot", "Bracket"] if d == 2 else [])
+    if rng.random() < 0.7:
+        op = rng.choice(vec_ops)
+        a = scaled_nested_arg(rng, d, "v")
+        if op in ("Dot", "Cross", "Convect", "Outer"):
+            other = {"k": "vf", "name": rng.choice("FGH")}
+            args = [a, other] if rng.random() < 0.5 else [other, a]
+        else:
+            args = [a]
+    else:
+        op = rng.choice(sc_ops)
+        a = scaled_nested_arg(rng, d, "s")
+        args = [a, {"k": "sf", "name": "h"}] if op == "Bracket" else [a]
+    return {"dim": d, "op": op, "args": args, "seed": rng.randrange(1 << 30)}
+
+
 def gen_case(rng, tier):
     d = rng.choice([1, 2, 2, 3, 3])
     depth = rng.randint(1, 2 if tier == "quick" else 3)
@@ -349,6 +402,10 @@ def gen_case(rng, tier):
         else:
             arg = g.scalar(depth)
         return {"dim": d, "op": op, "args": [arg], "seed": rng.randrange(1 << 30)}
+    if rng.random() < 0.16:
+        c = gen_scaled_nested(rng)
+        if c is not None:
+            return c
     ops = OPS_BY_DIM[d]
     op = rng.choices(ops, [WEIGHT[o] for o in ops])[0]
     g = GGen(rng, d, nest=rng.choice([0, 1, 1, 2]) if tier != "quick" else rng.choice([0, 1, 1]))
